@@ -336,8 +336,8 @@ def r6_stamps(ctx):
             ctx.check(ok, 'receiver-stamp', "the receiving module's id is stamped into the header before the handler runs", g.where(b), show(v))
 
 
-def r7_delayed_send(ctx):
-    ctx.set_rule('C08.R7')
+def r7_delayed_send(ctx, rule='C08.R7'):
+    ctx.set_rule(rule)
     # a send on a gate HANDLE uses that very gate (a module may send on a gate it was handed, e.g. one of another module): the handle
     # forms of IntoModuleGate are the identity / the upgrade — never a lookup by name in the calling module's table
     for key, want in (('<std::sync::Arc as des::net::gate::IntoModuleGate>::as_gate', 'clone'), ('<std::sync::Weak as des::net::gate::IntoModuleGate>::as_gate', 'upgrade')):
